@@ -262,6 +262,10 @@ impl BTreeTable {
 		Ok(())
 	}
 
+	pub fn skip_value_plan(&self, tier: usize, index: u64, log: &mut LogReader) -> Result<()> {
+		self.tables.read()[tier].validate_plan(index, log)
+	}
+
 	pub fn complete_plan(&self, log: &mut LogWriter) -> Result<()> {
 		let tables = self.tables.read();
 		for t in tables.iter() {
